@@ -9,6 +9,19 @@ use crate::rng::Rng;
 use crate::run::{Obs, Prop, RunCfg, Verdict, Worker};
 
 fn gen(r: &mut Rng, _cfg: &RunCfg) -> Case {
+    if r.chance(1, 6) {
+        // through WrapAlgorithm::wrap(&[Word], &[usize]) with up to 12 listed widths
+        let mut c = Case::new(if r.coin() { "algo_first_fit" } else { "algo_optimal_fit" });
+        c.frags = frag::finite_frags(r, Scale::Small, 60, false);
+        for f in c.frags.iter_mut() {
+            f.ws = f.ws.min(8.0);
+            f.pw = f.pw.min(1.0);
+        }
+        let max = if r.coin() { 12 } else { 3 };
+        c.lws = frag::line_widths(r, Scale::Small, max, &c.frags);
+        c.pen = Some(opts::penalties(r, false));
+        return c;
+    }
     let mut c = Case::new(if r.coin() { "frag_first_fit" } else { "frag_optimal_fit" });
     match r.below(6) {
         0 => {
@@ -74,7 +87,32 @@ pub fn check(case: &Case, obs: &mut Obs) -> Verdict {
     let frags = &case.frags;
     let lws = &case.lws;
     let finite = all_finite(frags, lws);
-    let res: Result<Vec<usize>, String> = if case.sub == "frag_first_fit" {
+    let res: Result<Vec<usize>, String> = if case.sub.starts_with("algo") {
+        let words = match super::c07::words_for(frags) {
+            Some(w) => w,
+            None => return Verdict::Skipped("fragments not representable as Words"),
+        };
+        if lws.iter().any(|w| w.fract() != 0.0 || *w < 0.0) {
+            return Verdict::Skipped("line widths not representable as usize");
+        }
+        let ulws: Vec<usize> = lws.iter().map(|w| *w as usize).collect();
+        let algo = if case.sub == "algo_first_fit" {
+            textwrap::WrapAlgorithm::FirstFit
+        } else {
+            #[cfg(feature = "smawk")]
+            {
+                textwrap::WrapAlgorithm::OptimalFit(case.pen.unwrap_or(Pen::DEFAULT).build())
+            }
+            #[cfg(not(feature = "smawk"))]
+            {
+                return Verdict::Skipped("optimal-fit not available in this feature set");
+            }
+        };
+        let lines = algo.wrap(&words, &ulws);
+        obs.calls += 1;
+        obs.bump("through_wrap_algorithm_enum");
+        super::c07::word_partition(&words, &lines)
+    } else if case.sub == "frag_first_fit" {
         let lines = textwrap::wrap_algorithms::wrap_first_fit(frags, lws);
         obs.calls += 1;
         check_partition(frags, &lines)
@@ -133,7 +171,7 @@ pub fn check(case: &Case, obs: &mut Obs) -> Verdict {
             }
             Verdict::held(
                 parts.len() >= 2,
-                h(&[(case.sub == "frag_first_fit") as u64, bucket(frags.len()), bucket(parts.len()), lws.len() as u64, neg as u64, frac as u64]),
+                h(&[hs(&case.sub), bucket(frags.len()), bucket(parts.len()), lws.len() as u64, neg as u64, frac as u64]),
             )
         }
     }
@@ -184,6 +222,31 @@ fn extra(cfg: &RunCfg, w: &mut Worker) {
             }
         }
     }
+    // long sequences (thousands of fragments, hundreds of lines)
+    {
+        let mut r = Rng::stream(cfg.seed, &["C06", "long"], w.id as u64);
+        for k in 0..(if cfg.thorough { 16 } else { 2 }) {
+            let n = r.range(300, 5000);
+            let mut c = Case::new(["frag_first_fit", "frag_optimal_fit", "algo_first_fit", "algo_optimal_fit"][k % 4]);
+            c.frags = (0..n).map(|_| Frag { w: r.range(0, 4) as f64, ws: r.range(0, 1) as f64, pw: r.below(2) as f64 }).collect();
+            c.lws = (0..r.range(1, 3)).map(|_| r.range(2, 12) as f64).collect();
+            c.pen = Some(Pen::DEFAULT);
+            w.run_case(&c);
+            *w.stats.counters.entry("long_sequences".to_string()).or_insert(0) += 1;
+        }
+    }
+    // more than 65535 lines in one call (16-bit line counters)
+    if w.id == 1 || (cfg.thorough && w.id < 4) {
+        for (k, sub) in ["frag_optimal_fit", "frag_first_fit"].iter().enumerate() {
+            let n = 70_000 + 10_000 * (w.id + k);
+            let mut c = Case::new(sub);
+            c.frags = (0..n).map(|i| Frag { w: 1.0 + (i % 3) as f64, ws: 1.0, pw: 0.0 }).collect();
+            c.lws = vec![3.0];
+            c.pen = Some(Pen::DEFAULT);
+            w.run_case(&c);
+            *w.stats.counters.entry("more_than_65535_lines".to_string()).or_insert(0) += 1;
+        }
+    }
     if w.id == 0 {
         w.note_exhaustive(
             "small-fragments",
@@ -196,13 +259,13 @@ fn extra(cfg: &RunCfg, w: &mut Worker) {
 pub fn prop() -> Prop {
     Prop {
         id: "C06",
-        rule: "cases = fragment sequences of length 0..60 with integer (small / up to 2^20), dyadic, and arbitrary finite f64 (zero, fractional, negative, 1e-300..f64::MAX) widths / whitespace / penalty widths, line-width lists of length 0..3, arbitrary usize penalties, for wrap_first_fit and wrap_optimal_fit (+ exhaustive small fragments); the returned slices are checked by pointer and length to be non-empty contiguous runs covering the input in order; Err results and non-finite inputs are counted separately and never judged; non-trivial = >= 2 lines; distinct = (algorithm, length bucket, line bucket, line-width list length, negative, fractional)",
+        rule: "cases = fragment sequences of length 0..60 with integer (small / up to 2^20), dyadic, and arbitrary finite f64 (zero, fractional, negative, 1e-300..f64::MAX) widths / whitespace / penalty widths, line-width lists of length 0..3 (0..12 through WrapAlgorithm::wrap with Word fragments), arbitrary usize penalties, for wrap_first_fit, wrap_optimal_fit and WrapAlgorithm::{FirstFit, OptimalFit}.wrap, sequences of up to 5000 fragments in the long sub-run (+ exhaustive small fragments); the returned slices are checked by pointer and length to be non-empty contiguous runs covering the input in order; Err results and non-finite inputs are counted separately and never judged; non-trivial = >= 2 lines; distinct = (algorithm, length bucket, line bucket, line-width list length, negative, fractional)",
         gen,
         check,
         panic_is_violation: false,
         budget: (3600000, 120000000),
         extra: Some(extra),
-        required: &["multi_line", "empty_input", "empty_line_width_list", "negative_values", "fractional_values"],
+        required: &["more_than_65535_lines", "long_sequences", "through_wrap_algorithm_enum", "multi_line", "empty_input", "empty_line_width_list", "negative_values", "fractional_values"],
         known: None,
     }
 }
